@@ -3,14 +3,19 @@
 package c20
 
 import (
+	"bytes"
 	"context"
 	"encoding/json"
 	"fmt"
 	"io"
+	"net"
 	"net/http"
 	"net/http/httptest"
 	"net/url"
+	"strings"
 	"sync"
+	"sync/atomic"
+	"syscall"
 	"testing"
 	"testing/synctest"
 	"time"
@@ -55,11 +60,20 @@ type SeenData struct {
 	Truncated    uint64            `json:"truncated"`
 }
 
+// HookStep is one delivery through the SAME webhook.Notifier. Fault: "" (endpoint up), "down" (dial refused),
+// "ctx-cancelled" / "ctx-expired" (flush context already done when Notify is called). Other: the delivery carries
+// a different batch (otherBatch) instead of the case's batch.
+type HookStep struct {
+	Fault string `json:"fault,omitempty"`
+	Other bool   `json:"other,omitempty"`
+}
+
 type DataCase struct {
 	Webhook   bool              `json:"webhook"` // through the real webhook.Notifier and an HTTP server
 	MaxAlerts uint64            `json:"max_alerts"`
 	Group     map[string]string `json:"group_labels"`
 	Alerts    []AlertJ          `json:"alerts"`
+	Steps     []HookStep        `json:"steps,omitempty"` // webhook only; empty = three deliveries of the batch, endpoint up
 	// observed
 	Now  int64     `json:"now,omitempty"`
 	Seen *SeenData `json:"seen,omitempty"`
@@ -121,6 +135,22 @@ func genData(r *vh.Rand, env vh.Env) Case {
 			}
 		}
 	}
+	if dc.Webhook && r.Chance(3, 5) {
+		// transport-level faults between deliveries through the same notifier (endpoint down, context already
+		// done), with the same or a different batch, then the endpoint is up again
+		k := r.Range(1, 4)
+		for i := 0; i < k; i++ {
+			st := HookStep{Other: r.Bool()}
+			if !r.Chance(1, 4) {
+				st.Fault = vh.Pick(r, []string{"down", "down", "ctx-cancelled", "ctx-expired"})
+			}
+			dc.Steps = append(dc.Steps, st)
+		}
+		dc.Steps = append(dc.Steps, HookStep{}) // the case's batch, endpoint up
+		if r.Bool() {
+			dc.Steps = append(dc.Steps, HookStep{Fault: vh.Pick(r, []string{"down", "ctx-cancelled"}), Other: r.Bool()}, HookStep{Other: true}, HookStep{})
+		}
+	}
 	return Case{Engine: "data", Data: dc}
 }
 
@@ -158,6 +188,35 @@ func seenOf(d *template.Data, truncated uint64) *SeenData {
 		s.Alerts = append(s.Alerts, SeenAlert{Firing: a.Status == string(model.AlertFiring), Labels: a.Labels, Annots: a.Annotations, Starts: ns(a.StartsAt), Ends: ns(a.EndsAt)})
 	}
 	return s
+}
+
+// the "different batch" of a HookStep
+var otherBatch = []AlertJ{{Labels: map[string]string{"alertname": "Stale", "instance": "other"}, Annots: map[string]string{"summary": "a different batch"}, StartOff: -int64(time.Minute)}}
+
+// oneJSONDocument decodes the first JSON document of a request body the way a receiver would and reports whether
+// anything but white space follows it
+func oneJSONDocument(body []byte, v any) (trailing string, err error) {
+	dec := json.NewDecoder(bytes.NewReader(body))
+	if err := dec.Decode(v); err != nil {
+		return "", err
+	}
+	rest, _ := io.ReadAll(dec.Buffered())
+	off := int(dec.InputOffset())
+	if off < len(body) {
+		rest = body[off:]
+	}
+	return strings.TrimSpace(string(rest)), nil
+}
+
+func labelsOf(as []AlertJ, max uint64) string {
+	if max != 0 && uint64(len(as)) > max {
+		as = as[:max]
+	}
+	out := []map[string]string{}
+	for _, a := range as {
+		out = append(out, a.Labels)
+	}
+	return mustJSON(out)
 }
 
 func mustJSON(v any) string {
@@ -199,6 +258,7 @@ var (
 	hookSrv  *httptest.Server
 	hookMu   sync.Mutex
 	hookBody []byte
+	hookHits int
 )
 
 func theTemplate(t *testing.T) *template.Template {
@@ -219,6 +279,7 @@ func theHookServer() *httptest.Server {
 			b, _ := io.ReadAll(r.Body)
 			hookMu.Lock()
 			hookBody = b
+			hookHits++
 			hookMu.Unlock()
 			w.WriteHeader(200)
 		}))
@@ -265,40 +326,92 @@ func runData(t *testing.T, c *Case) result {
 	var rounds []*SeenData
 	var inputs []*types.Alert
 	var now time.Time
+	var stepViol [][2]string
+	var stepTags []string
 	if dc.Webhook {
 		srv := theHookServer()
+		var down atomic.Bool
+		dial := func(ctx context.Context, network, addr string) (net.Conn, error) {
+			if down.Load() {
+				return nil, &net.OpError{Op: "dial", Net: network, Err: syscall.ECONNREFUSED}
+			}
+			return (&net.Dialer{}).DialContext(ctx, network, addr)
+		}
 		n, err := webhook.New(&webhook.WebhookConfig{URL: amcommoncfg.SecretTemplateURL(srv.URL), HTTPConfig: &commoncfg.HTTPClientConfig{}, MaxAlerts: dc.MaxAlerts},
-			theTemplate(t), promslog.NewNopLogger(), commoncfg.WithKeepAlivesDisabled())
+			theTemplate(t), promslog.NewNopLogger(), commoncfg.WithKeepAlivesDisabled(), commoncfg.WithDialContextFunc(dial))
 		if err != nil {
 			t.Fatal(err)
 		}
 		now = time.Now()
-		ctx := notify.WithGroupKey(context.Background(), "{}:{alertname=\"Down\"}")
-		ctx = notify.WithReceiverName(ctx, "team")
-		ctx = notify.WithGroupLabels(ctx, toLS(dc.Group))
-		ctx = notify.WithNotificationReason(ctx, notify.ReasonFirstNotification)
-		hookMu.Lock()
-		hookBody = nil
-		hookMu.Unlock()
-		// the SAME alert objects are notified three times (as a retry, a sibling integration or the next flush
-		// would): every payload must be the same and the alerts themselves must come out untouched
+		base := notify.WithGroupKey(context.Background(), "{}:{alertname=\"Down\"}")
+		base = notify.WithReceiverName(base, "team")
+		base = notify.WithGroupLabels(base, toLS(dc.Group))
+		base = notify.WithNotificationReason(base, notify.ReasonFirstNotification)
+		// the SAME alert objects are delivered several times through the SAME notifier (as retries, sibling
+		// integrations or later flushes would), possibly with transport-level failures and other batches in
+		// between: every request that reaches the endpoint must carry exactly one JSON document, the payload of
+		// ITS batch; the alerts themselves must come out untouched
 		inputs = mkAlerts(dc.Alerts, now)
-		for round := 0; round < 3; round++ {
+		others := mkAlerts(otherBatch, now)
+		steps := dc.Steps
+		if len(steps) == 0 {
+			steps = []HookStep{{}, {}, {}}
+		}
+		for si, st := range steps {
 			hookMu.Lock()
-			hookBody = nil
+			hookBody, hookHits = nil, 0
 			hookMu.Unlock()
-			retry, err := n.Notify(ctx, inputs...)
+			ctx, cancel := context.WithCancel(base)
+			down.Store(st.Fault == "down")
+			switch st.Fault {
+			case "ctx-cancelled":
+				cancel()
+			case "ctx-expired":
+				cancel()
+				ctx, cancel = context.WithDeadline(base, time.Now().Add(-time.Second))
+			}
+			batch, batchJ := inputs, dc.Alerts
+			if st.Other {
+				batch, batchJ = others, otherBatch
+			}
+			retry, err := n.Notify(ctx, batch...)
+			cancel()
+			hookMu.Lock()
+			body, hits := hookBody, hookHits
+			hookMu.Unlock()
+			stepTags = append(stepTags, "webhook-step/"+map[string]string{"": "up"}[st.Fault]+st.Fault)
+			if st.Fault != "" {
+				if err == nil || hits != 0 {
+					stepViol = append(stepViol, [2]string{"webhook-transport-failure-not-reported", fmt.Sprintf("step %d (%s): err=%v, requests received=%d", si+1, st.Fault, err, hits)})
+				}
+				continue
+			}
 			if err != nil || retry {
-				t.Fatalf("webhook Notify: retry=%v err=%v", retry, err)
+				stepViol = append(stepViol, [2]string{"webhook-healthy-endpoint-delivery-failed", fmt.Sprintf("step %d: endpoint up, answered 200 to whatever it could decode, but Notify returned retry=%v err=%v; body %q", si+1, retry, err, body)})
 			}
 			var msg webhook.Message
-			hookMu.Lock()
-			body := hookBody
-			hookMu.Unlock()
-			if err := json.Unmarshal(body, &msg); err != nil || msg.Data == nil {
-				t.Fatalf("webhook body: %v: %s", err, body)
+			trailing, derr := oneJSONDocument(body, &msg)
+			if derr != nil || msg.Data == nil {
+				stepViol = append(stepViol, [2]string{"payload-not-json", fmt.Sprintf("step %d: %v: %q", si+1, derr, body)})
+				continue
 			}
-			rounds = append(rounds, seenOf(msg.Data, msg.TruncatedAlerts))
+			if trailing != "" {
+				stepViol = append(stepViol, [2]string{"payload-has-trailing-or-stale-bytes", fmt.Sprintf("step %d: the request body holds more than one JSON document; after the first: %q", si+1, trailing)})
+			}
+			sn := seenOf(msg.Data, msg.TruncatedAlerts)
+			got := []map[string]string{}
+			for _, a := range sn.Alerts {
+				got = append(got, a.Labels)
+			}
+			if want := labelsOf(batchJ, dc.MaxAlerts); mustJSON(got) != want {
+				stepViol = append(stepViol, [2]string{"payload-not-the-current-batch", fmt.Sprintf("step %d: the (first) document of the request lists alerts %s, the batch being delivered is %s", si+1, mustJSON(got), want)})
+			}
+			if !st.Other {
+				rounds = append(rounds, sn)
+			}
+		}
+		if len(rounds) == 0 {
+			t.Fatalf("no delivery of the batch reached the endpoint: %v", stepViol)
 		}
 	} else {
 		synctest.Test(t, func(t *testing.T) {
@@ -334,6 +447,10 @@ func runData(t *testing.T, c *Case) result {
 	viol := func(key, what string) {
 		res.viol = append(res.viol, vh.Violation{Key: key, What: what, Case: c})
 	}
+	for _, v := range stepViol {
+		viol(v[0], v[1])
+	}
+	res.tags = append(res.tags, stepTags...)
 	for k := 1; k < len(rounds); k++ {
 		if a, b := mustJSON(rounds[0]), mustJSON(rounds[k]); a != b {
 			viol("payload-differs-on-rebuild", fmt.Sprintf("build %d of the payload from the same alert objects differs from build 1: %s  vs  %s", k+1, b, a))
